@@ -375,3 +375,22 @@ def results(F):
     except OSError:
         pass
     return R
+
+
+def crosscheck(F, res):
+    """thorough tier: the verdict tables must not depend on the folding bound - the analysis is re-run with longer item
+    sequences (CAP 12 instead of 8) and the children of every node kind and the same-kind wrappers must come out equal"""
+    global CAP
+    from rules import parser_model as PM
+    base = results(F)
+    old = CAP
+    try:
+        CAP = 12
+        S = Shapes(F, PM.movers(F))
+    finally:
+        CAP = old
+    ch = {k: sorted(v) for k, v in S.children.items()}
+    diff = sorted(k for k in set(ch) | set(base["children"]) if ch.get(k) != base["children"].get(k))
+    res.ob("SX", "shape/cap-independent", "engine S gives the same children per node kind and the same same-kind wrappers with item sequences "
+           "folded at 12 positions as at 8", not diff and [list(x) for x in S.same_kind_wrappers()] == base["same_kind_wrappers"],
+           where="crates/syntax/src/parser.rs", how="%d node kinds compared; differing: %s" % (len(ch), diff[:6]))
